@@ -248,9 +248,10 @@ prop("C08",
                 "quoted, is quoted when the mode requires it, and never contains its own quote character.",
      level_note="Trusted: pyvc, z3; str.replace as an opaque function with the library facts listed in pyvc/engine.py. These are "
                 "the local lexical conditions; that they imply 're-tokenising yields the same token' (the lemma over the C02 "
-                "spec machine) is NOT mechanised in this revision. Known findings (DESIGN.md section 9): raw text decided by "
-                "bare element name (foreign style/script, noscript), attribute namespace prefixes dropped, CR in text, comment "
-                "data starting/ending with '-', trailing solidus glued to an unquoted value.",
+                "spec machine) is NOT mechanised in this revision. Known finding: noscript text is written raw although the "
+                "parser (scripting off) reads it as markup (ground obligation 'serializer tables agree with the parser'). Observed "
+                "while reading and NOT covered by any obligation: attribute namespace prefixes dropped, CR in text, comment data "
+                "starting/ending with '-', trailing solidus glued to an unquoted value.",
      not_decided=["lexical lemma: output re-tokenises to the same tokens", "doctype and Entity tokens", "encoded output (bytes)"],
      explanation="loop body under a step contract, bounded in attribute count")
 
